@@ -453,7 +453,7 @@ class Gen(object):
                           "Cryptographic Algorithm", "Object Type", "Unique Identifier"])
             a = self.tattr(nm)
             if self.p(0.6):
-                a["index"] = self.ch([0, 0, 1, 2, 5])
+                a["index"] = self.ch([0, 0, 1, 2, 5, -1, -1, -2, -3])
             cur = self.tattr(nm) if self.p(0.75) else None
             if cur is not None and self.p(0.15):
                 # a current attribute of another kind than the new one (2.0 form)
@@ -469,7 +469,7 @@ class Gen(object):
                 cur = self.tattr(self.ch(["Object Group", "Application Specific Information", "Object Group",
                                           "Sensitive", "State", "Contact Information", "Operation Policy Name"]))
             it.update(uid=self.uid(), name=nm if self.p(0.97) else None,
-                      index=self.ch([None, 0, 0, 1, 2, 5]), current=cur,
+                      index=self.ch([None, 0, 0, 1, 2, 5, -1, -1, -2]), current=cur,
                       reference=nm if (cur is None and self.p(0.9)) else None)
         elif op == "unsupported":
             it.update(code=self.ch([4, 6, 9, 13, 16, 21, 25, 29, 36]))
